@@ -260,7 +260,7 @@ fn check_visitor(a: &Arch, mode: u8, cut: u64, st: &mut Stats, order: u64) {
 }
 
 pub fn archives(seed: u64, thorough: bool) -> Vec<Arch> {
-    let al = c01::entry_alphabet(seed, if thorough { 16 } else { 12 });
+    let al = c01::entry_alphabet(seed, if thorough { 40 } else { 24 });
     let mut v = vec![];
     let mut add = |label: String, bytes: Vec<u8>, unsupported_at: Option<usize>, program: Value, pw: Option<&[u8]>| {
         if let Ok(seek) = observe(&bytes, pw, 1 << 22) {
@@ -269,8 +269,8 @@ pub fn archives(seed: u64, thorough: bool) -> Vec<Arch> {
     };
     let n = al.len();
     for d in 1..=3usize {
-        // full product at depth 1 and 2; depth 3 over the first 8
-        let m = if d == 3 { 8.min(n) } else { n };
+        // full product at depth 1 and 2; depth 3 over the first 9 (thorough 12)
+        let m = if d == 3 { (if thorough { 12 } else { 9 }).min(n) } else { n };
         for j in 0..m.pow(d as u32) {
             let es: Vec<c01::E> = (0..d).rev().map(|k| al[(j / m.pow(k as u32)) % m].clone()).collect();
             // 70 001-byte contents at depth 3 make 216 patterns expensive: keep them to depth <= 2
@@ -349,11 +349,11 @@ pub fn run(args: &Args) -> i32 {
     let thorough = args.tier.thorough();
     let archs = archives(args.seed, thorough);
     ctx.rule = format!(
-        "E-SEQ over consumption histories. Archives: every writer program of 1 and 2 entries over a {}-entry alphabet and of 3 entries over its first 8 (files of every method, directories, symlinks, large_file entries, non-ASCII and empty names), plus 24 builder-made archives \
+        "E-SEQ over consumption histories. Archives: every writer program of 1 and 2 entries over a {}-entry alphabet and of 3 entries over its first 9 (thorough 12) (files of every method, directories, symlinks, large_file entries, non-ASCII and empty names), plus 24 builder-made archives \
          (local/central extras, file comments, DOS/Unix made-by, ZIP64 local blocks, forced ZIP64 end records; and data-descriptor / ZipCrypto / AES entries for the refusal clause): {} archives. For each archive ALL 6^n per-entry consumption patterns over {{none, 1, 7, all-1, all, past-EOF}} \
          are run over a full-read stream and a 1-byte-read stream, and the 'all' pattern under one cut at every byte position (archives <= 600 bytes). Oracle: the seekable reader on the same bytes (names, sizes, methods, DOS words, content prefixes), Ok(None) after the last entry, \
          errors for unsupported entries; visitor (over full-read, 1-byte, 3-byte and every single-cut stream): files in order, then central-directory metadata (name, unix_mode, comment) once per entry in order. distinct_nontrivial = distinct (archive, pattern tuple, stream mode) executions (counted).",
-        if thorough { 16 } else { 12 },
+        if thorough { 40 } else { 24 },
         archs.len()
     );
     ctx.assume("the seekable reader is tied to the written content by C01/C03; here it is only the reference for the streaming reader");
